@@ -25,7 +25,7 @@ META = dict(
     bounds=dict(quick='imaging words depth<=2 over 8 symbols, every stop, 2 object/field kinds; wavelength-argument menu '
                       "{'all', equal list, subset with primary, subset without primary, reordered}; field-argument menu {'all', subset, extra field}",
                 thorough='depth<=3 over 5 symbols added, 4 numeric variants'),
-    tolerances=dict(recomputation='1e-9 relative', distortion='0.02 percentage points', coddington='2e-4 mm + 1e-4 relative'),
+    tolerances=dict(recomputation='1e-9 relative', distortion='0.02 percentage points', coddington='2e-4 mm + 3e-4 relative (the library differentiates closely spaced rays numerically)'),
     assumptions=['paraxial image height from vmc.ref.abcd', "Coddington's equations with local curvatures from vmc.ref.geom"],
 )
 
@@ -37,6 +37,8 @@ def units(tier, variant):
     ws = list(LZ.words(A, 1, 2))
     if tier == 'thorough':
         ws += list(LZ.words(A[:5], 3, 3))
+    else:
+        ws += [(4, 0, 1), (4, 2, 1)]        # lenses whose outer field fails completely (found by the thorough tier)
     out = []
     for w in ws:
         surfs = [A[i] for i in w]
@@ -267,6 +269,10 @@ def run_unit(unit):
                 part.count('cmp:encircled-energy')
                 if len(yy) == 0 or np.any(np.diff(yy) < -1e-12):
                     part.violation(PID, 'encircled-energy-monotone', 'EncircledEnergy.view', cond0, dict(det, field=i), observed=yy[:5], expected='non-decreasing')
+                if not (np.all(np.isfinite(x)) and np.all(np.isfinite(y))):
+                    # a field with failed rays has no centroid (plain mean of its points) in the library nor in the recomputation
+                    part.count('encircled-energy:field-with-failed-rays-judged-for-monotonicity-only')
+                    continue
                 tot = float(np.nansum(e))
                 if len(yy) and abs(yy[-1] - tot) > 1e-9 * max(1.0, tot):
                     part.violation(PID, 'encircled-energy-reaches-total', 'EncircledEnergy.view', cond0, dict(det, field=i), observed=float(yy[-1]), expected=tot)
@@ -388,7 +394,7 @@ def run_unit(unit):
                         got, ref = np.asarray(got, float), np.asarray(ref, float)
                         part.count('cmp:field-curvature')
                         okk = np.isfinite(ref) & (np.abs(ref) < 1e3)
-                        if got.shape != ref.shape or np.any(np.abs(got[okk] - ref[okk]) > 2e-4 + 1e-4 * np.abs(ref[okk])):
+                        if got.shape != ref.shape or np.any(np.abs(got[okk] - ref[okk]) > 2e-4 + 3e-4 * np.abs(ref[okk])):
                             i = int(np.argmax(np.where(okk, np.abs(got - ref), 0))) if got.shape == ref.shape else 0
                             part.violation(PID, f'field-curvature-{nm}-is-coddington', 'FieldCurvature', condf, dict(det0, wave=w, sample=i, image_radius=img_shape),
                                            observed=float(got[i]) if got.shape == ref.shape else list(got.shape), expected=float(ref[i]), tol=2e-4)
